@@ -85,3 +85,113 @@ def check_vesting(workdir, nres, chunk=20, limit=300, timeout=600):
                 break
     shutil.rmtree(os.path.join(wd, "_apalache-out"), ignore_errors=True)
     return res
+
+
+def _minter_relations(s):
+    """Relations (TLA+ expressions over MM == INSTANCE MinterMath) that one recorded sample must satisfy."""
+    P = int(P18)
+    rels = []
+    ps = s["periods"]
+    T, start = s["t_ms"], s["start_ms"]
+
+    def exp_total(p, X):
+        h = p["hints"]
+        n = max(0, (X - p["start_ms"]) // p["step_ms"]) if X >= p["start_ms"] else 0
+        passed = X - p["start_ms"] - n * p["step_ms"]
+        cur = h[n] if n < len(h) else h[-1]
+        terms = list(h[:n]) + ["MM!ExpPart(%s, %d, %d)" % (cur, passed, p["step_ms"])]
+        return " + ".join(terms), n
+
+    # hint chains
+    for p in ps:
+        if p["kind"] == "EXP":
+            h = p["hints"]
+            rels.append("%s = MM!DecFromInt(%s)" % (h[0], p["amount"]))
+            for k in range(1, len(h)):
+                rels.append("MM!NextEpoch(%s, %s) = %s" % (h[k - 1], p["mult"], h[k]))
+    # cumulative schedule at T
+    if T < start:
+        rels.append("%s = 0" % s["total"])
+    else:
+        terms = []
+        for p in ps:
+            finished = p["end_ms"] >= 0 and T >= p["end_ms"]
+            X = p["end_ms"] if finished else T
+            if p["kind"] == "LIN":
+                terms.append("MM!DecFromInt(%s)" % p["amount"] if finished else "MM!LinPart(%s, %d, %d)" % (p["amount"], X - p["start_ms"], p["end_ms"] - p["start_ms"]))
+            elif p["kind"] == "EXP":
+                terms.append("(" + exp_total(p, X)[0] + ")")
+            else:
+                terms.append("0")
+            if not finished:
+                break
+        rels.append("MM!TruncInt(%s) = %s" % (" + ".join(terms), s["total"]))
+    # reported inflation at T
+    if s.get("infl") not in (None, ""):
+        ip = s["infl_period"]
+        if 0 <= ip < len(ps):
+            p = ps[ip]
+            year_ms = 365 * 24 * 3600 * 1000
+            if p["start_ms"] > T or p["kind"] == "NO" or (p["end_ms"] >= 0 and T >= p["end_ms"]):
+                rels.append("%s = 0" % s["infl"])
+            elif p["kind"] == "LIN":
+                rels.append("MM!YearlyOverSupply(MM!DecFromInt(%s), %d, %d, %s) = %s" % (p["amount"], year_ms, p["end_ms"] - p["start_ms"], s["supply"], s["infl"]))
+            else:
+                _, n = exp_total(p, T)
+                cur = p["hints"][n] if n < len(p["hints"]) else p["hints"][-1]
+                rels.append("MM!YearlyOverSupply(%s, %d, %d, %s) = %s" % (cur, year_ms, p["step_ms"], s["supply"], s["infl"]))
+    return rels
+
+
+def check_minter(workdir, nres, chunk=20, limit=40, timeout=600):
+    wd = os.path.join(workdir, "apalache")
+    os.makedirs(wd, exist_ok=True)
+    for f in ("DecArith.tla", "MinterMath.tla"):
+        shutil.copy(os.path.join(SPEC, f), os.path.join(wd, f))
+    samples = (nres.get("samples") or [])[:limit]
+    rels = []
+    for s in samples:
+        for r in _minter_relations(s):
+            rels.append(("minter", s, r))
+    head = ["EXTENDS Integers", "MM == INSTANCE MinterMath WITH P <- " + P18, "VARIABLE", "  \\* @type: Int;", "  dummy", "Init == dummy = 0", "Next == UNCHANGED dummy"]
+    lines = ["---- MODULE Num_Minter ----"] + head
+    chunks = []
+    for i in range(0, len(rels), chunk):
+        name = "C%d" % (i // chunk)
+        chunks.append(name)
+        lines.append(name + " ==\n  /\\ " + "\n  /\\ ".join(r[2] for r in rels[i:i + chunk]))
+    lines.append("Inv == " + (" /\\ ".join(chunks) if chunks else "TRUE"))
+    lines.append("====")
+    open(os.path.join(wd, "Num_Minter.tla"), "w").write("\n".join(lines) + "\n")
+    ok, err, wall = _run_apalache(wd, "Num_Minter.tla", "Inv", timeout)
+    res = {"steps": len(rels), "samples": len(samples), "wall_s": round(wall, 1), "bad": [], "error": None}
+    if ok is None:
+        res["error"] = err
+    elif ok is False:
+        for ci, name in enumerate(chunks):
+            okc, errc, _ = _run_apalache(wd, "Num_Minter.tla", name, timeout)
+            if okc is None:
+                res["error"] = errc
+                break
+            if okc:
+                continue
+            for kind, s, rel in rels[ci * chunk:(ci + 1) * chunk]:
+                one = ["---- MODULE Num_One ----"] + head + ["Inv == " + rel, "===="]
+                open(os.path.join(wd, "Num_One.tla"), "w").write("\n".join(one) + "\n")
+                ok1, err1, _ = _run_apalache(wd, "Num_One.tla", "Inv", timeout)
+                if ok1 is False:
+                    prop = "C19" if "YearlyOverSupply" in rel or rel.startswith(str(s.get("infl")) + " = 0") else "C02"
+                    res["bad"].append({"prop": prop, "kind": "mismatch", "sig": "num.minter.differs-from-spec." + ("inflation" if prop == "C19" else "schedule"),
+                                       "msg": "the real code's result differs from spec/MinterMath.tla evaluated at P = 10^18: " + rel[:600],
+                                       "path": [{"case": {k: s[k] for k in ("start_ms", "t_ms", "total", "blocks", "infl", "supply", "infl_period")}, "periods": s["periods"]}]})
+                    if len(res["bad"]) >= 5:
+                        break
+            if len(res["bad"]) >= 5:
+                break
+    shutil.rmtree(os.path.join(wd, "_apalache-out"), ignore_errors=True)
+    return res
+
+
+def check_none(workdir, nres, chunk=20, limit=0, timeout=0):
+    """Real-magnitude runs whose predicates are evaluated on the real results only (no recorded relations)."""
+    return {"steps": 0, "samples": 0, "wall_s": 0.0, "bad": [], "error": None}
